@@ -38,6 +38,7 @@ type matrixG interface {
 }
 
 type matrixCfg struct {
+	mixed              bool // add SetEdge operations with mixed end point node values (endFlavours)
 	kind               xkind
 	variant            string
 	n                  int
@@ -173,6 +174,15 @@ func matrixOps(cfg *matrixCfg) []op {
 			}
 		}
 	}
+	if cfg.mixed {
+		for _, fl := range endFlavours {
+			for _, i := range cfg.opIDs {
+				for _, j := range cfg.opIDs {
+					ops = append(ops, op{kind: opSetUnit, i: i, j: j, w: 1, mixed: true, ft: fl[0], tt: fl[1], name: fmt.Sprintf("SetEdge(%d,%d,ends=%s)", i, j, flavourName(fl[0], fl[1]))})
+				}
+			}
+		}
+	}
 	for _, w := range cfg.weights {
 		for _, i := range cfg.opIDs {
 			for _, j := range cfg.opIDs {
@@ -234,12 +244,17 @@ func (y *matrixSys) apply(s *xInst, k int) (string, bool) {
 			if o.w == 1 || o.w == 2 {
 				tag = int(o.w)
 			}
+			ft, tt := tag, tag
+			if o.mixed {
+				ft, tt = o.ft, o.tt
+				tag = ft
+			}
 			call := func() {
 				if o.kind == opSetUnit {
 					// the weight of the value must be ignored: SetEdge sets unit weight
-					s.g.SetEdge(tEdge{F: tNode{Id: o.i, Tag: tag}, T: tNode{Id: o.j, Tag: tag}, W: 99})
+					s.g.SetEdge(tEdge{F: mkNode(o.i, ft, ownSimple), T: mkNode(o.j, tt, ownSimple), W: 99})
 				} else {
-					s.g.SetWeightedEdge(tEdge{F: tNode{Id: o.i, Tag: tag}, T: tNode{Id: o.j, Tag: tag}, W: o.w})
+					s.g.SetWeightedEdge(tEdge{F: mkNode(o.i, ft, ownSimple), T: mkNode(o.j, tt, ownSimple), W: o.w})
 				}
 			}
 			if o.i == o.j || !m.inRange(o.i) || !m.inRange(o.j) {
@@ -264,7 +279,7 @@ func (y *matrixSys) apply(s *xInst, k int) (string, bool) {
 			call()
 			m.set(o.i, o.j, o.w)
 			if y.cfg.from {
-				m.nodes[o.i], m.nodes[o.j] = tag, tag
+				m.nodes[o.i], m.nodes[o.j] = ft, tt
 			}
 		case opRemoveEdge:
 			selfInRange := o.i == o.j && m.inRange(o.i)
